@@ -154,6 +154,102 @@ def ssHist (p : SSPair) : DomainCache × Bytes → List SSStep → List (Option 
   | _, [] => []
   | s, x :: t => let r := ssHistStep p s x; r.2 :: ssHist p r.1 t
 
+/-! ## server → client: the client unpackers and their per-session state -/
+
+structure PlainDownStep where
+  src : AddrPort      -- payload source address
+  ps : Nat
+  payload : Bytes
+
+/-- the none / SOCKS5 client unpackers keep no per-packet state (`serverAddrPort` is fixed for the session) -/
+def plainDownHistStep (hdr3 : Bool) (limit : Int) (server pktSrc : AddrPort) (b : Bytes) (x : PlainDownStep) :
+    Bytes × Option (AddrPort × Bytes) :=
+  let b1 := splice b x.ps x.payload
+  match plainServerPack hdr3 b1 x.src x.ps x.payload.length limit with
+  | .ok r =>
+    match plainClientUnpack hdr3 server pktSrc r.buf r.packetStart.toNat r.packetLen.toNat with
+    | .ok u => (u.buf, some (u.addr, sub u.buf u.payloadStart.toNat u.payloadLen.toNat))
+    | _ => (r.buf, none)
+  | _ => (b1, none)
+
+def plainDownHist (hdr3 : Bool) (limit : Int) (server pktSrc : AddrPort) : Bytes → List PlainDownStep → List (Option (AddrPort × Bytes))
+  | _, [] => []
+  | b, x :: t => let r := plainDownHistStep hdr3 limit server pktSrc b x; r.2 :: plainDownHist hdr3 limit server pktSrc r.1 t
+
+/-- state of `ShadowPacketClientUnpacker`: current and old server session (id; its AEAD is derived from the id),
+the packet ids delivered in each (the sliding-window filters as sets — their window logic is C04's), and
+`oldServerSessionLastSeenTime` (none = the zero time). Times in seconds. -/
+structure CUState where
+  cur : Option Bytes := none
+  curSeen : List Bytes := []
+  old : Option Bytes := none
+  oldSeen : List Bytes := []
+  oldLastSeen : Option Int := none
+deriving Repr
+
+/-- `ShadowPacketClientUnpacker.UnpackInPlace` with its session state: pick the session by the server session id
+in the separate header (current, old, or — unless the old one was seen less than a minute ago — a new one), refuse
+a packet id already delivered in that session, then open and parse as `ssClientUnpack` does with that session's key;
+on success record the packet id and update the sessions. `keyOf ssid` = the AEAD key derived from the PSK and `ssid`. -/
+def ssClientUnpackS (c : Crypto) (block : Bytes) (keyOf : Bytes → Bytes) (csid : Bytes) (now : Int) (st : CUState)
+    (b : Bytes) (q n : Nat) : CUState × Outcome (Unpacked AddrPort) :=
+  if cUnpackTooSmall n then (st, .err .tooSmall) else
+  if ¬ sliceOk b q (cUnpackMessageHeaderStart q) then (st, .panic) else
+  if ¬ sliceOk b (cUnpackMessageHeaderStart q) (q + n) then (st, .panic) else
+  let sep := c.dec block (sub b q 16)
+  let ssid := sep.take 8
+  let spid := sep.drop 8
+  let status : Option Nat :=
+    if st.cur = some ssid then some 0
+    else if st.old = some ssid then some 1
+    else if (match st.oldLastSeen with | some t => decide (now - t < 60) | none => false) then none
+    else some 2
+  match status with
+  | none => (st, .err .tooManySessions)
+  | some k =>
+    let seen := if k = 0 then st.curSeen else if k = 1 then st.oldSeen else []
+    if spid ∈ seen then (st, .err .replay) else
+    match ssClientUnpack c block (keyOf ssid) csid now b q n with
+    | .ok u =>
+      let st' : CUState :=
+        if k = 0 then { st with curSeen := spid :: st.curSeen }
+        else if k = 1 then { st with oldSeen := spid :: st.oldSeen, oldLastSeen := some now }
+        else { cur := some ssid, curSeen := [spid], old := st.cur, oldSeen := st.curSeen, oldLastSeen := some now }
+      (st', .ok u)
+    | o => (st, o)
+
+structure SSDownStep where
+  src : AddrPort
+  ps : Nat
+  payload : Bytes
+  rand : Nat
+  ts : Bytes
+  spid : Bytes
+  now : Int
+
+/-- one server session (packer) and the client session it answers -/
+structure SSDownPair where
+  c : Crypto
+  block : Bytes
+  keyOf : Bytes → Bytes
+  pol : Policy
+  lim : Int
+  ssid : Bytes
+  csid : Bytes
+
+def ssDownHistStep (p : SSDownPair) (s : CUState × Bytes) (x : SSDownStep) : (CUState × Bytes) × Option (AddrPort × Bytes) :=
+  let b1 := splice s.2 x.ps x.payload
+  match ssServerPack p.c p.block (p.keyOf p.ssid) p.pol b1 x.src x.ps x.payload.length p.lim x.rand x.ts p.ssid x.spid p.csid with
+  | .ok r =>
+    match ssClientUnpackS p.c p.block p.keyOf p.csid x.now s.1 r.buf r.packetStart.toNat r.packetLen.toNat with
+    | (st', .ok u) => ((st', u.buf), some (u.addr, sub u.buf u.payloadStart.toNat u.payloadLen.toNat))
+    | (st', _) => ((st', r.buf), none)
+  | _ => ((s.1, b1), none)
+
+def ssDownHist (p : SSDownPair) : CUState × Bytes → List SSDownStep → List (Option (AddrPort × Bytes))
+  | _, [] => []
+  | s, x :: t => let r := ssDownHistStep p s x; r.2 :: ssDownHist p r.1 t
+
 /-- one packet of a history through the direct packer: target, payload length, what the resolver answers now -/
 structure DirectStep where
   addr : Addr
